@@ -20,7 +20,7 @@ THEOREMS = [
     "Typedpy.C13.counterexample_falsy_default_kw",
     "Typedpy.C13.counterexample_union_duplicate", "Typedpy.C13.statement_false",
     "Typedpy.C13.none_first_equiv", "Typedpy.C13.none_inner_optional", "Typedpy.C13.hasNoneOpt_position",
-    "Typedpy.C13.tuple_single_equiv",
+    "Typedpy.C13.tuple_single_equiv", "Typedpy.C13.none_default_equiv",
     "Typedpy.C13.equiv_example",
 ]
 RULE = ("class bodies of 1-3 fields; each field an abstract meaning tree (scalar / constrained field literal / bare or "
@@ -36,11 +36,14 @@ RULE = ("class bodies of 1-3 fields; each field an abstract meaning tree (scalar
         "None | T, AnyOf[None, T], Union[A, None, B], A | None | B, Union[A, Optional[B]], Optional[A] | B ...): "
         "randomly at any depth, plus a directed stream (7 quick / 18 thorough cases) that enumerates all forms x "
         "positions x bracketings for a few operand types; such a field is optional in every spelling (by itself "
-        "where typedpy documents it, through _optional otherwise)")
+        "where typedpy documents it, through _optional otherwise). Directed streams also enumerate every single-argument "
+        "container form x argument form (tuple/list/set/frozenset/deque/dict) and the product spelling x default "
+        "(none, `= None`, falsy 0 / '' / False / 0.0, truthy; as `= v` and `default=v`) for optional and non-optional "
+        "meanings; with `= None` on a None-admitting meaning the spellings without default are included as equivalents")
 ASSUMPTIONS = [
     "vocabulary: int/str/float/bool/Any, list/set/frozenset/deque/single-argument tuple and their typing aliases, dict/Dict/Map, Optional/Union/AnyOf/|, "
     "constrained Integer/Float/Number/String/Enum literals; multi-argument tuples, date/time and Structure-valued fields are not in the spelling grammar",
-    "defaults are immutable scalar literals (int/str/float/bool); None and callable defaults are outside the modelled domain",
+    "defaults are immutable scalar literals (int/str/float/bool) and the literal `= None` (validated, but not a default afterwards); `default=None` (= no default), callable and mutable defaults are outside the modelled domain",
     "the class source is executed at module level of a module registered in sys.modules (what the future-annotations eval needs)",
     "Python 3.12 typing semantics (Union flattening / de-duplication, no callable check on arguments)",
 ]
